@@ -929,6 +929,10 @@ fn gemm_impl<'a, LhsT: GemmInT, RhsT: GemmInT, OutT: GemmOutT>(
 
     let rhs_packer = match b {
         GemmInputB::BlockQuantized(mat) => {
+            // The packers dequantize 4-bit elements only.
+            if mat.n_bits() != 4 {
+                return Err(GemmError::QuantBitsNotSupported);
+            }
             let packer = kernel
                 .pack_block_quant(mat)
                 .ok_or(GemmError::BlockQuantizedInputNotSupported)?;
